@@ -16,7 +16,7 @@ RULE = ('seeded histories (10-60 steps) over {create list/dict/Box/MemoryBlock, 
         'queue (child exits with the proxy alive), agent process exits with live proxies, shared-memory write/read across processes} executed across the '
         'harness process and 2 persistent agent processes against one ServerProcess. After every step the server\'s ids and reference counts (debug_info) '
         'and /dev/shm entries are compared with a reference-count model. non-trivial = history with >=1 cross-process transfer and >=1 nesting step; '
-        'distinct = distinct (seed, length)')
+        'distinct = distinct (seed, length); a hosted method handing out managed(x) repeatedly for the same x that lives on in the server (re-hosting under the same id; server-side ownership is part of the model)')
 ASSUMPTIONS = ['comparison happens only after the quiescence protocol (gc in every client, one no-op call per live connection, up to 4 s of retries), so that '
                'legitimately delayed releases never raise an alarm',
                'model count = live proxies in all client processes + proxies held inside live hosted containers + pickles not yet deserialised']
